@@ -55,6 +55,10 @@ TASKS = [
      'p(X) :- X = 1..n, not q(X), not aux(X). aux(X) :- q(X), X > n.', 'input: n -> integer. input: q/1. output: p/1.'),
     ('spec-private-predicate', 'spec', 'spec: forall X (h(X) <-> q(X) and X > 2). spec: forall X (p(X) <-> h(X)).',
      'p(X) :- q(X), X > 2.', 'input: q/1. output: p/1.'),
+    ('spec-exists-equivalence', 'spec', 'spec: exists X (p(X) <-> q(X)). spec: forall X (exists Y (p(Y) <-> q(X))). '
+     'spec(backward): exists X$i (p(X$i) <-> not q(X$i)).', 'p(1) :- not q(1).', 'input: q/1. output: p/1.'),
+    ('spec-nested-equivalences', 'spec', 'spec: forall X ((p(X) <-> q(X)) or X != 1). spec: forall X (forall Y (p(X) <-> not q(Y)) -> X = 1). '
+     'spec: (forall X (p(X) <-> X = 1)) <-> not q(1).', 'p(1) :- not q(1).', 'input: q/1. output: p/1.'),
     ('constraint-only-right', 'program', 'p(X) :- q(X). :- q(X), X < 0.', 'p(X) :- q(X), X >= 0. :- q(X), not p(X).',
      'input: q/1. output: p/1.'),
 ]
